@@ -1,11 +1,14 @@
-(* C03 — media playlist survives serialise -> parse.  Proved: the stateful part, i.e. which
+(* C03 — media playlist survives serialise -> parse.  Proved: (1) the stateful part, i.e. which
    EXT-X-KEY tags the writer emits before which segment and what the reader makes of them, at the
-   level of key events; the value layers it rests on are in C18/C01.  Not proved (open, sampled by
-   the correspondence check): the text form of each tag read back (needs the float text
-   conversions), and the reproduction of the ORDER inside a key list (false: known finding D20). *)
+   level of key events; (2) the text level: the written text parses to `reread p`, which has the
+   same observable content, with keys per segment as a set.  Not provable (false): the ORDER inside
+   a key list (known finding D20) and a map's own key list (D9-K1).  Hypotheses on the std float /
+   duration text conversions are decidable parts of `wf_media`. *)
 From hls Require Import Base Float Lex Kinds Types Tags Line Keys Media.
 From hls.Spec Require Import KeySpec.
-From hls.Proofs Require Import KeysProof C06 C11 C03.
+From hls Require Import Master.
+From hls.Generated Require Import Tables.
+From hls.Proofs Require Import KeysProof C06 C11 C03 TextLines AttrText TagText TagTextSegment TagTextDateRange MediaText C03Items.
 
 (* for key lists as consecutive segments of a parse have them (each the marker alone or keys of
    pairwise different formats; keys never vanish without METHOD=NONE), the EXT-X-KEY events the
@@ -66,4 +69,92 @@ Proof.
   simpl. repeat split; try discriminate; right; repeat constructor; simpl; intros; try tauto;
     repeat match goal with H : _ \/ _ |- _ => destruct H end; try tauto;
     match goal with H : Some _ = Some _ |- _ => inversion H; subst; vm_compute; reflexivity end.
+Qed.
+
+(* ---------- text level ---------- *)
+(* the text the media writer produces, read back: the parser sees exactly the items the writer meant
+   (every tag through the tokenizer and its own parser; `wf_media`: decidable well-formedness of the
+   value — clean strings, integers in range, URIs that are not tag lines, durations/floats that
+   survive the modelled std conversions) *)
+Theorem C03_text_items : forall p b0, wf_media p = true ->
+  parse_media_with b0 (print_media p) = parse_items b0 (map Ok (media_items p)).
+Proof. exact media_text_items. Qed.
+Check C03_text_items : forall p b0, wf_media p = true ->
+  parse_media_with b0 (print_media p) = parse_items b0 (map Ok (media_items p)).
+Print Assumptions C03_text_items.
+
+(* ... and those items, run through the parser state machine and build(), give `reread p`: for a
+   playlist value with the invariants build() establishes (`built_ok`: numbers = media sequence +
+   position, explicit byte ranges, durations within the target, keys = derived form of per-segment
+   raw key lists that a parse can produce) *)
+Theorem C03_text_roundtrip : forall p raws, wf_media p = true -> built_ok p raws ->
+  parse_media (print_media p) = Ok (reread p).
+Proof. exact media_text_roundtrip. Qed.
+Check C03_text_roundtrip : forall p raws, wf_media p = true -> built_ok p raws ->
+  parse_media (print_media p) = Ok (reread p).
+Print Assumptions C03_text_roundtrip.
+
+(* the re-read value has the same observable content: header, unknown tags, and per segment the
+   number, URI, duration/title, byte range, date range, flags, map URI/range — and the same keys
+   as a SET (their order is known finding D20; a map's keys are the reader's keys: D9-K1) *)
+Theorem C03_reread_same : forall p raws, built_ok p raws ->
+  mp_target (reread p) = mp_target p /\ mp_mseq (reread p) = mp_mseq p /\ mp_dseq (reread p) = mp_dseq p
+  /\ mp_ptype (reread p) = mp_ptype p /\ mp_iframes (reread p) = mp_iframes p /\ mp_indep (reread p) = mp_indep p
+  /\ mp_start (reread p) = mp_start p /\ mp_endlist (reread p) = mp_endlist p /\ mp_unknown (reread p) = mp_unknown p
+  /\ Forall2 seg_same (mp_segs (reread p)) (mp_segs p).
+Proof. exact reread_same. Qed.
+Check C03_reread_same : forall p raws, built_ok p raws ->
+  mp_target (reread p) = mp_target p /\ mp_mseq (reread p) = mp_mseq p /\ mp_dseq (reread p) = mp_dseq p
+  /\ mp_ptype (reread p) = mp_ptype p /\ mp_iframes (reread p) = mp_iframes p /\ mp_indep (reread p) = mp_indep p
+  /\ mp_start (reread p) = mp_start p /\ mp_endlist (reread p) = mp_endlist p /\ mp_unknown (reread p) = mp_unknown p
+  /\ Forall2 seg_same (mp_segs (reread p)) (mp_segs p).
+Print Assumptions C03_reread_same.
+
+(* non-vacuity at text level: a parsed playlist with two key formats, a key rotation, METHOD=NONE,
+   a map, byte ranges, a date range and fractional durations meets every hypothesis *)
+Definition c03_empty : MediaPlaylist :=
+  {| mp_target := 0; mp_mseq := 0; mp_dseq := 0; mp_ptype := None; mp_iframes := false; mp_indep := false;
+     mp_start := None; mp_endlist := false; mp_segs := []; mp_excess := 0; mp_unknown := [] |}.
+Definition c03_p : MediaPlaylist := Eval vm_compute in
+  match parse_media (lit "#EXTM3U
+#EXT-X-VERSION:6
+#EXT-X-TARGETDURATION:10
+#EXT-X-MEDIA-SEQUENCE:7
+#EXT-X-PLAYLIST-TYPE:VOD
+#EXT-X-START:TIME-OFFSET=1.5
+#EXT-X-KEY:METHOD=AES-128,URI=""k1""
+#EXT-X-KEY:METHOD=SAMPLE-AES,URI=""k2"",KEYFORMAT=""com.apple.streamingkeydelivery"",KEYFORMATVERSIONS=""1/2""
+#EXT-X-MAP:URI=""init.mp4"",BYTERANGE=""100@0""
+#EXT-X-BYTERANGE:500@100
+#EXTINF:9.5,first
+seg.mp4
+#EXT-X-KEY:METHOD=AES-128,URI=""k3"",IV=0x000102030405060708090a0b0c0d0e0f
+#EXT-X-BYTERANGE:400
+#EXT-X-DATERANGE:ID=""d"",START-DATE=""2020-01-01T00:00:00Z"",DURATION=2.25,X-A=""v"",X-B=0xAB,X-C=1.5
+#EXT-X-DISCONTINUITY
+#EXTINF:10,
+seg.mp4
+#EXT-X-KEY:METHOD=NONE
+#EXTINF:2.002,
+plain.ts
+#EXT-X-FOO:bar
+#EXT-X-ENDLIST
+") with Ok p => p | _ => c03_empty end.
+Definition c03_raws : list (list xkey) := Eval vm_compute in
+  map (fun s => map (fun k => match k with Some d => Some (strip_derived d) | None => None end) (sg_keys s)) (mp_segs c03_p).
+Example C03_text_example :
+  List.length (mp_segs c03_p) = 3%nat /\ wf_media c03_p = true /\ built_ok c03_p c03_raws
+  /\ parse_media (print_media c03_p) = Ok (reread c03_p).
+Proof.
+  assert (Hb : built_ok c03_p c03_raws).
+  { constructor; try (vm_compute; reflexivity).
+    - intros H; vm_compute in H; discriminate H.
+    - unfold keys_from_raw. repeat constructor.
+    - simpl. repeat split; try discriminate;
+        try (left; reflexivity);
+        right; repeat constructor; simpl; intros; try tauto;
+        repeat match goal with H : _ \/ _ |- _ => destruct H end; try tauto;
+        match goal with H : Some _ = Some _ |- _ => inversion H; subst; vm_compute; reflexivity end. }
+  split; [reflexivity|]. split; [vm_compute; reflexivity|]. split; [exact Hb|].
+  apply (media_text_roundtrip c03_p c03_raws); [vm_compute; reflexivity | exact Hb].
 Qed.
